@@ -141,3 +141,122 @@ Proof.
   destruct (nth_error (corners g) j) as [gj|], (nth_error (rcorners g) j) as [gj'|]; try contradiction; [|reflexivity].
   f_equal. apply (left_right_img (fun p => p)); try assumption. intros; reflexivity.
 Qed.
+
+(* ======================================================================================== *)
+(* the hypotheses about [inter] used in Proofs/Geom2Proofs.v section 6 are satisfiable:      *)
+(* a (coarse) intersection-area function that fulfils all seven of them                      *)
+(* ======================================================================================== *)
+Definition same_bev_b (e g : box) : bool :=
+  Qeqb (bx e) (bx g) && Qeqb (by_ e) (by_ g) && Qeqb (bc e) (bc g) && Qeqb (bs e) (bs g) &&
+  Qeqb (bw e) (bw g) && Qeqb (bl e) (bl g).
+Definition inter_toy (e g : box) : Q := if same_bev_b e g then area_rect e else 0.
+
+Lemma Qeqb_true a b : Qeqb a b = true <-> a == b.
+Proof. destruct (Qeqb_spec a b); split; intros; auto; try discriminate; contradiction. Qed.
+
+Lemma same_bev_b_spec e g : same_bev_b e g = true <-> same_bev e g.
+Proof. unfold same_bev_b, same_bev. rewrite !andb_true_iff, !Qeqb_true. tauto. Qed.
+
+Lemma same_bev_sym e g : same_bev e g -> same_bev g e.
+Proof. unfold same_bev. intros (H1 & H2 & H3 & H4 & H5 & H6). repeat split; symmetry; assumption. Qed.
+
+Lemma same_bev_area e g : same_bev e g -> area_rect e == area_rect g.
+Proof. intros (_ & _ & _ & _ & Hw & Hl). unfold area_rect. rewrite Hw, Hl. reflexivity. Qed.
+
+Lemma bool_eq_iff (a b : bool) : (a = true <-> b = true) -> a = b.
+Proof.
+  destruct a, b; intros [H1 H2]; try reflexivity.
+  - symmetry. apply H1. reflexivity.
+  - apply H2. reflexivity.
+Qed.
+
+(* the corner two steps ahead of an edge is strictly inside it *)
+Lemma cross_opposite b :
+  box_unit b ->
+  match corners b with
+  | [c0; c1; c2; c3] =>
+      cross c0 c1 c2 == bl b * bw b /\ cross c1 c2 c3 == bl b * bw b /\
+      cross c2 c3 c0 == bl b * bw b /\ cross c3 c0 c1 == bl b * bw b
+  | _ => False
+  end.
+Proof.
+  unfold box_unit. intros U. rewrite corners4.
+  unfold cross, place, add_pt, rot, centre2. cbn [fst snd].
+  repeat split; (transitivity ((bc b * bc b + bs b * bs b) * (bl b * bw b)); [halves; ring|rewrite U; ring]).
+Qed.
+
+Lemma same_bev_not_separated e g :
+  box_valid e -> same_bev e g -> ~ separated_by_edge (corners e) (corners g).
+Proof.
+  intros [(Hw & Hl & _) U] S (ab & Hab & Hsep).
+  pose proof (cross_opposite e U) as X. pose proof (corners_same_bev e g S) as C.
+  assert (P : 0 < bl e * bw e) by nra.
+  rewrite (corners4 e) in *. rewrite (corners4 g) in *. unfold edges in Hab. cbn [combine app] in Hab.
+  destruct X as (X0 & X1 & X2 & X3).
+  inversion C as [|? ? ? ? C0 C']; subst. inversion C' as [|? ? ? ? C1 C'']; subst.
+  inversion C'' as [|? ? ? ? C2 C''']; subst. inversion C''' as [|? ? ? ? C3 _]; subst.
+  assert (R : forall p, pt_eq p p) by (intros; split; reflexivity).
+  destruct Hab as [<-|[<-|[<-|[<-|[]]]]]; cbn [fst snd] in Hsep.
+  - specialize (Hsep _ (or_intror (or_intror (or_introl eq_refl)))).
+    rewrite <- (cross_pt_eq _ _ _ _ _ _ (R _) (R _) C2), X0 in Hsep. lra.
+  - specialize (Hsep _ (or_intror (or_intror (or_intror (or_introl eq_refl))))).
+    rewrite <- (cross_pt_eq _ _ _ _ _ _ (R _) (R _) C3), X1 in Hsep. lra.
+  - specialize (Hsep _ (or_introl eq_refl)).
+    rewrite <- (cross_pt_eq _ _ _ _ _ _ (R _) (R _) C0), X2 in Hsep. lra.
+  - specialize (Hsep _ (or_intror (or_introl eq_refl))).
+    rewrite <- (cross_pt_eq _ _ _ _ _ _ (R _) (R _) C1), X3 in Hsep. lra.
+Qed.
+
+Lemma rot_inj c s px py qx qy :
+  c * c + s * s == 1 ->
+  c * px - s * py == c * qx - s * qy -> s * px + c * py == s * qx + c * qy -> px == qx /\ py == qy.
+Proof.
+  intros U E1 E2.
+  assert (D1 : c * (px - qx) - s * (py - qy) == 0) by lra.
+  assert (D2 : s * (px - qx) + c * (py - qy) == 0) by lra.
+  assert (X : (c * c + s * s) * (px - qx) == c * (c * (px - qx) - s * (py - qy)) + s * (s * (px - qx) + c * (py - qy))) by ring.
+  assert (Y : (c * c + s * s) * (py - qy) == c * (s * (px - qx) + c * (py - qy)) - s * (c * (px - qx) - s * (py - qy))) by ring.
+  rewrite D1, D2, U in X, Y. split; lra.
+Qed.
+
+Lemma same_bev_move m e g : motion_unit m -> (same_bev (move_box m e) (move_box m g) <-> same_bev e g).
+Proof.
+  unfold motion_unit, same_bev, move_box, move_pt, add_pt, rot, centre2. cbn [bx by_ bc bs bw bl fst snd mtx mty].
+  intros U. split.
+  - intros (H1 & H2 & H3 & H4 & H5 & H6).
+    destruct (rot_inj (mc m) (ms m) (bx e) (by_ e) (bx g) (by_ g) U) as [A1 A2]; [lra|lra|].
+    destruct (rot_inj (mc m) (ms m) (bc e) (bs e) (bc g) (bs g) U H3 H4) as [A3 A4].
+    repeat split; assumption.
+  - intros (H1 & H2 & H3 & H4 & H5 & H6). rewrite H1, H2, H3, H4. repeat split; try reflexivity; assumption.
+Qed.
+
+Lemma inter_toy_ok :
+  (forall e g, box_valid e -> box_valid g -> 0 <= inter_toy e g) /\
+  (forall e g, box_valid e -> box_valid g -> inter_toy e g <= area_rect e) /\
+  (forall e g, box_valid e -> box_valid g -> inter_toy e g <= area_rect g) /\
+  (forall e g, box_valid e -> box_valid g -> inter_toy e g == inter_toy g e) /\
+  (forall e g, box_valid e -> box_valid g -> same_bev e g -> inter_toy e g == area_rect e) /\
+  (forall e g, box_valid e -> box_valid g -> boxes_disjoint e g -> inter_toy e g == 0) /\
+  (forall m e g, motion_unit m -> box_valid e -> box_valid g ->
+     inter_toy (move_box m e) (move_box m g) == inter_toy e g).
+Proof.
+  unfold inter_toy. repeat split.
+  - intros e g Ve Vg. pose proof (area_rect_pos e (proj1 Ve)). destruct (same_bev_b e g); lra.
+  - intros e g Ve Vg. pose proof (area_rect_pos e (proj1 Ve)). destruct (same_bev_b e g); lra.
+  - intros e g Ve Vg. pose proof (area_rect_pos g (proj1 Vg)).
+    destruct (same_bev_b e g) eqn:E; [|lra]. apply same_bev_b_spec, same_bev_area in E. lra.
+  - intros e g Ve Vg.
+    assert (E : same_bev_b g e = same_bev_b e g).
+    { apply bool_eq_iff. rewrite !same_bev_b_spec. split; apply same_bev_sym. }
+    rewrite E. destruct (same_bev_b e g) eqn:E'; [|reflexivity].
+    apply same_bev_b_spec, same_bev_area in E'. exact E'.
+  - intros e g Ve Vg S. apply same_bev_b_spec in S. rewrite S. reflexivity.
+  - intros e g Ve Vg D. destruct (same_bev_b e g) eqn:E; [|reflexivity]. exfalso.
+    apply same_bev_b_spec in E. destruct D as [D|D].
+    + exact (same_bev_not_separated e g Ve E D).
+    + exact (same_bev_not_separated g e Vg (same_bev_sym _ _ E) D).
+  - intros m e g Um Ve Vg.
+    assert (E : same_bev_b (move_box m e) (move_box m g) = same_bev_b e g).
+    { apply bool_eq_iff. rewrite !same_bev_b_spec. now apply same_bev_move. }
+    rewrite E. rewrite area_rect_move. reflexivity.
+Qed.
